@@ -74,3 +74,13 @@ package jmespath
 //@   tags C08 C04 C06
 //@   ensures failure: result1 != nil ==> result0 == nil && pubCat(result1) != 0
 //@   ensures success: result1 == nil ==> result0 != nil && fresh(result0)
+
+//@ func MustCompile
+//@   tags C06 C03
+//@   maypanic true
+//@   note panics exactly when Parse fails (the only panic instruction is on that branch)
+//@   ensures result != nil
+
+//@ func Expression.Search
+//@   requires compiled: e.node != nil
+//@   note a zero Expression (not obtained from Compile) is outside the documented use
